@@ -85,6 +85,23 @@ def run(ctx, out):
     for _ in range(60 if quick else 800):
         cases.append(waived_then_violation(rng))
         cases.append(nested_waived_then_unwaived(rng))
+    # qualified counts far apart (and the other way round), many conforming values: an early exit inside the counting loop would
+    # change which of the two qualified components is reported
+    from rdflib import BNode as _B, Graph, Literal as _L
+    from rdflib.namespace import RDF as _RDF
+    from common import EX as _EX, NODES as _NODES, SH as _SH
+    for k in range(8 if quick else 60):
+        g, d = Graph(), Graph()
+        S, ps, q = _EX["QS%d" % k], _B(), _B()
+        g.add((S, _RDF.type, _SH.NodeShape)); g.add((S, _SH.targetSubjectsOf, _EX.p0)); g.add((S, _SH.property, ps))
+        g.add((ps, _SH.path, _EX.p0)); g.add((ps, _SH.qualifiedValueShape, q)); g.add((q, _SH.nodeKind, _SH.IRI))
+        lo, hi = rng.choice([(4, 1), (5, 2), (3, 0), (1, 4), (2, 2), (6, 1)])
+        g.add((ps, _SH.qualifiedMinCount, _L(lo))); g.add((ps, _SH.qualifiedMaxCount, _L(hi)))
+        for f in rng.sample(_NODES, 2):
+            for v in rng.sample(_NODES, rng.randint(3, 6)):
+                d.add((f, _EX.p0, v))
+            d.add((f, _EX.p0, _L("lit %d" % k)))
+        cases.append(("qualified-far-apart", g, d))
     out.rule = ("multi-shape, multi-constraint and nested inputs x abort_on_first {off,on} x the 4 severity option combinations; "
                 "non-trivial = distinct non-conforming case whose abort run reports fewer results than the complete run")
     lines = []
